@@ -5,6 +5,7 @@ in-package oracle files, parsing of the observation lines, sharded evaluation of
 the comparison inside Coq."""
 import concurrent.futures as cf
 import json
+import os
 import re
 
 import lib
@@ -12,6 +13,7 @@ import l2
 import ctorgen
 
 PAR = 6
+os.environ.setdefault("GOMAXPROCS", "6")     # go build -p defaults to GOMAXPROCS: keep the shared machine usable
 ORT_SRC = lib.VERIF / "harness/go/cmd/ctorsig/ort.go.txt"
 
 DEF_RE = re.compile(r"(?im)^shoot:.*?\Wdef(ault)?=([^;\n]+)(;.*|\s*)$")
